@@ -54,6 +54,21 @@ def mk_dataset(rng, kind=None, maxn=40):
     return info
 
 
+def decoy_instances():
+    """other StoG objects living in the same process: one whose default post-merge options are edited in place, one with other scattering
+    lengths.  Nothing they do may reach the object under test (state kept on the class or in the module, shared default dictionaries)."""
+    from pystog import StoG
+    a = StoG()
+    try:
+        a.merged_opts["Y"]["Scale"] = 2.0
+        a.merged_opts["Y"]["Offset"] = 0.25
+    except (KeyError, TypeError):
+        pass
+    b = StoG(**{"<b_coh>^2": 7.7, "<b_tot^2>": 9.9, "NumberDensity": 0.123})
+    b.bcoh_sqrd, b.btot_sqrd = 7.7, 9.9
+    return a, b
+
+
 def lone_origin_point(rng, kind=None):
     """a dataset that consists of the single point Q = 0 (an extrapolated S(0), a transmission normalisation point)"""
     kind = kind or str(rng.choice(["S(Q)", "DCS(Q)"]))
